@@ -46,6 +46,7 @@ def clause_tags(clause):
 
 
 STRATA = {}
+HIST_FACTOR = {"C05": 2.5, "C09": 1.5, "C10": 1.5, "C11": 3, "C12": 2}     # cheap traces, many specification branches
 QUERY_PROPS = {"C01", "C02", "C03", "C06", "C07", "C08"}
 LIGHT = ["compress", "expand", "standardize_prefix", "parse_uri"]
 METHODS = {
@@ -159,8 +160,9 @@ def oplists_from_hists(pid, hists, cmaps, rng, limit):
         # query properties need live converters: only behaviours whose last operation succeeded
         ok = [hl for hl in hs if hl[1] and hl[1][0] == "ok"]
         hs = ok or hs
-    hs, n_classes, _ = world.stratified(hs, rng, limit)
-    STRATA[pid] = {"signature_classes": n_classes, "behaviours_selected": len(hs)}
+    limit = int(limit * HIST_FACTOR.get(pid, 1))
+    hs, n_classes, n_single = world.stratified(hs, rng, limit)
+    STRATA[pid] = {"signature_sequence_classes": n_classes, "single_operation_signatures": n_single, "behaviours_selected": len(hs)}
     out = []
     for k, h in enumerate(hs):
         cmap = world.CONCRETE[cmaps[k % len(cmaps)]]
